@@ -7,6 +7,7 @@ set_option linter.unusedSimpArgs false
 namespace ExprModel.Refine
 open ExprModel
 open ExprModel.Spec
+open ExprModel.Spec.SML
 
 variable {c : Cfg} {P : LProg} {ctx : Ctx}
 
@@ -95,6 +96,81 @@ theorem eval_bi_any (sc : SCfg) (m : Meta) (a b : Node) : eval sc ctx (.builtin 
   rw [fbQuant_any]
   congr 1; funext r; cases r <;> rfl
 
+/-- what a quantifier does with the closure's value -/
+def postQuant (stop : Bool) (v : Bool) : Nat → Unit → Val → SM (Unit ⊕ Val) :=
+  fun _ _ x => do
+    let t ← asBool x
+    if t = stop then pure (.inr (.bool v)) else pure (.inl ())
+
+theorem fbQuant_post (sc : SCfg) (b : Node) (stop v : Bool) (coll : Val) (i : Nat) (u : Unit) :
+    fbQuant sc ctx b stop v coll i u = (eval sc ((coll, (i : Int)) :: ctx) b >>= postQuant stop v i u) := rfl
+
+theorem evalLoc_bi_all (sc : SCfg) (m : Meta) (a b : Node) : evalLoc sc ctx (.builtin m "all" [a, b]) = (do
+    let coll ← evalLoc sc ctx a
+    let n ← raisedAt m.loc (SM.lift (lengthV coll))
+    let r ← loopIdxL (fbLoc sc ctx b m.loc (postQuant false false) coll) n.toNat 0 ()
+    raisedAt m.loc (epiOf (fun _ => pure (.bool true)) r)) := by
+  have raw : evalLoc sc ctx (.builtin m "all" [a, b]) = (do
+      let coll ← evalLoc sc ctx a
+      let n ← raisedAt m.loc (SM.lift (lengthV coll))
+      let r ← loopIdxL (fun i (_ : Unit) => do
+          let v ← evalLoc sc ((coll, (i : Int)) :: ctx) b
+          raisedAt m.loc (do if ← asBool v then pure (.inl ()) else pure (.inr (.bool false)))) n.toNat 0 ()
+      raisedAt m.loc (match r with
+        | .inl _ => pure (.bool true)
+        | .inr v => pure v)) := rfl
+  rw [raw]
+  congr 1; funext coll; congr 1; funext n
+  congr 1
+  all_goals first
+    | (funext r; congr 1; cases r <;> rfl)
+    | (congr 1; funext i u; unfold fbLoc; congr 1; funext x; congr 1; unfold postQuant
+       first | rfl | (congr 1; funext t; cases t <;> rfl))
+
+theorem evalLoc_bi_none (sc : SCfg) (m : Meta) (a b : Node) : evalLoc sc ctx (.builtin m "none" [a, b]) = (do
+    let coll ← evalLoc sc ctx a
+    let n ← raisedAt m.loc (SM.lift (lengthV coll))
+    let r ← loopIdxL (fbLoc sc ctx b m.loc (postQuant true false) coll) n.toNat 0 ()
+    raisedAt m.loc (epiOf (fun _ => pure (.bool true)) r)) := by
+  have raw : evalLoc sc ctx (.builtin m "none" [a, b]) = (do
+      let coll ← evalLoc sc ctx a
+      let n ← raisedAt m.loc (SM.lift (lengthV coll))
+      let r ← loopIdxL (fun i (_ : Unit) => do
+          let v ← evalLoc sc ((coll, (i : Int)) :: ctx) b
+          raisedAt m.loc (do if ← asBool v then pure (.inr (.bool false)) else pure (.inl ()))) n.toNat 0 ()
+      raisedAt m.loc (match r with
+        | .inl _ => pure (.bool true)
+        | .inr v => pure v)) := rfl
+  rw [raw]
+  congr 1; funext coll; congr 1; funext n
+  congr 1
+  all_goals first
+    | (funext r; congr 1; cases r <;> rfl)
+    | (congr 1; funext i u; unfold fbLoc; congr 1; funext x; congr 1; unfold postQuant
+       first | rfl | (congr 1; funext t; cases t <;> rfl))
+
+theorem evalLoc_bi_any (sc : SCfg) (m : Meta) (a b : Node) : evalLoc sc ctx (.builtin m "any" [a, b]) = (do
+    let coll ← evalLoc sc ctx a
+    let n ← raisedAt m.loc (SM.lift (lengthV coll))
+    let r ← loopIdxL (fbLoc sc ctx b m.loc (postQuant true true) coll) n.toNat 0 ()
+    raisedAt m.loc (epiOf (fun _ => pure (.bool false)) r)) := by
+  have raw : evalLoc sc ctx (.builtin m "any" [a, b]) = (do
+      let coll ← evalLoc sc ctx a
+      let n ← raisedAt m.loc (SM.lift (lengthV coll))
+      let r ← loopIdxL (fun i (_ : Unit) => do
+          let v ← evalLoc sc ((coll, (i : Int)) :: ctx) b
+          raisedAt m.loc (do if ← asBool v then pure (.inr (.bool true)) else pure (.inl ()))) n.toNat 0 ()
+      raisedAt m.loc (match r with
+        | .inl _ => pure (.bool false)
+        | .inr v => pure v)) := rfl
+  rw [raw]
+  congr 1; funext coll; congr 1; funext n
+  congr 1
+  all_goals first
+    | (funext r; congr 1; cases r <;> rfl)
+    | (congr 1; funext i u; unfold fbLoc; congr 1; funext x; congr 1; unfold postQuant
+       first | rfl | (congr 1; funext t; cases t <;> rfl))
+
 /-! ### the shared parts: prologue `OpBegin`, the exit through `OpEnd` -/
 
 theorem pro_begin {l : Loc} (k : Nat) (st : List Val) (scs : List Scope) (σ : SState) (coll : Val)
@@ -127,24 +203,25 @@ theorem exit_end {l : Loc} {op : Op} (hop : op = .true_ ∨ op = .false_) (k : N
 /-! ### `all` -/
 
 theorem sim_all {m : Meta} {a b : Node} {ca cb : List LInstr} {ci cs car c0 : Nat}
-    (ha : Sim c P ctx a ca) (hb : ∀ ctx', Sim c P ctx' b cb) (hsmall : SmallColl c a) (hK : LoopK P.consts ci cs car c0)
-    (hbl : BlameOK c P (.builtin m "all" [a, b])) :
+    (ha : Sim c P ctx a ca) (hb : ∀ ctx', Sim c P ctx' b cb) (hsmall : SmallColl c a) (hK : LoopK P.consts ci cs car c0) :
     Sim c P ctx (.builtin m "all" [a, b])
       (ca ++ [li m.loc .begin_] ++ emitLoop m.loc ci cs car c0
         (cb ++ [li m.loc .jumpIfFalse (lsize [li m.loc .pop, li m.loc .inc ci, li m.loc .jumpBackward 0, li m.loc .pop, li m.loc .true_]), li m.loc .pop])
         ++ [li m.loc .true_, li m.loc .end_]) := by
   refine sim_loop m.loc (fbQuant (specOf c) ctx b false false) (fun _ _ => pure (.bool true)) () (fun _ => [])
-    (fun _ _ _ => True) (eval_bi_all _ m a b) ha hsmall hK hbl rfl (fun _ _ _ _ _ _ _ => trivial)
+    (fun _ _ _ => True) (fun _ => postQuant false false) (fun coll i u => fbQuant_post _ b false false coll i u) (eval_bi_all _ m a b) (evalLoc_bi_all _ m a b) ha hsmall hK rfl (fun _ _ _ _ _ _ _ => trivial)
     (fun k st scs σ coll h => pro_begin k st scs σ coll h) ?_
     (fun coll N k st scs σ sc' accF r σ' h _ _ hev _ => epi_const (.inl ⟨rfl, rfl⟩) k st scs σ sc' r σ' h hev)
     (fun k st scs σ sc' v h _ => exit_end (.inl rfl) k st scs σ sc' v h)
-  intro coll N k0 st scs hle _ i acc σ res σ1 sc hiN hbase _ hfb hbr
+  intro coll N k0 st scs hle _ i acc σ res σ1 sc hiN hbase _ hfb hBL
   have hbody := loopCode_body hle
   unfold fbQuant at hfb
   unfold BodyPost
+  unfold fbLoc at hBL
   rcases SM.bind_cases hfb with ⟨e, hxe, rfl⟩ | ⟨x, σ2, hxv, hrest⟩
-  · exact hb _ _ st (sc :: scs) σ _ _ hbody.left (hbase.scopesOK ctx scs) hxe
-  · have r1 : Reach c P _ _ := hb _ _ st (sc :: scs) σ _ _ hbody.left (hbase.scopesOK ctx scs) hxv
+  · exact hb _ _ st (sc :: scs) σ _ _ hbody.left (hbase.scopesOK ctx scs) hxe hBL.left
+  · have r1 : Reach c P _ _ := hb _ _ st (sc :: scs) σ _ _ hbody.left (hbase.scopesOK ctx scs) hxv hBL.left
+    have hbr : RBlame P m.loc res := (hBL.right (evalLoc_of_ok hxv)).raised hrest
     have hj := hbody.right
     by_cases hbv : ∃ t, x = .bool t
     · obtain ⟨t, rfl⟩ := hbv
@@ -168,24 +245,25 @@ theorem sim_all {m : Meta} {a b : Node} {ca cb : List LInstr} {ci cs car c0 : Na
 /-! ### `none` -/
 
 theorem sim_none {m : Meta} {a b : Node} {ca cb : List LInstr} {ci cs car c0 : Nat}
-    (ha : Sim c P ctx a ca) (hb : ∀ ctx', Sim c P ctx' b cb) (hsmall : SmallColl c a) (hK : LoopK P.consts ci cs car c0)
-    (hbl : BlameOK c P (.builtin m "none" [a, b])) :
+    (ha : Sim c P ctx a ca) (hb : ∀ ctx', Sim c P ctx' b cb) (hsmall : SmallColl c a) (hK : LoopK P.consts ci cs car c0) :
     Sim c P ctx (.builtin m "none" [a, b])
       (ca ++ [li m.loc .begin_] ++ emitLoop m.loc ci cs car c0
         (cb ++ [li m.loc .not_, li m.loc .jumpIfFalse (lsize [li m.loc .pop, li m.loc .inc ci, li m.loc .jumpBackward 0, li m.loc .pop, li m.loc .true_]), li m.loc .pop])
         ++ [li m.loc .true_, li m.loc .end_]) := by
   refine sim_loop m.loc (fbQuant (specOf c) ctx b true false) (fun _ _ => pure (.bool true)) () (fun _ => [])
-    (fun _ _ _ => True) (eval_bi_none _ m a b) ha hsmall hK hbl rfl (fun _ _ _ _ _ _ _ => trivial)
+    (fun _ _ _ => True) (fun _ => postQuant true false) (fun coll i u => fbQuant_post _ b true false coll i u) (eval_bi_none _ m a b) (evalLoc_bi_none _ m a b) ha hsmall hK rfl (fun _ _ _ _ _ _ _ => trivial)
     (fun k st scs σ coll h => pro_begin k st scs σ coll h) ?_
     (fun coll N k st scs σ sc' accF r σ' h _ _ hev _ => epi_const (.inl ⟨rfl, rfl⟩) k st scs σ sc' r σ' h hev)
     (fun k st scs σ sc' v h _ => exit_end (.inl rfl) k st scs σ sc' v h)
-  intro coll N k0 st scs hle _ i acc σ res σ1 sc hiN hbase _ hfb hbr
+  intro coll N k0 st scs hle _ i acc σ res σ1 sc hiN hbase _ hfb hBL
   have hbody := loopCode_body hle
   unfold fbQuant at hfb
   unfold BodyPost
+  unfold fbLoc at hBL
   rcases SM.bind_cases hfb with ⟨e, hxe, rfl⟩ | ⟨x, σ2, hxv, hrest⟩
-  · exact hb _ _ st (sc :: scs) σ _ _ hbody.left (hbase.scopesOK ctx scs) hxe
-  · have r1 : Reach c P _ _ := hb _ _ st (sc :: scs) σ _ _ hbody.left (hbase.scopesOK ctx scs) hxv
+  · exact hb _ _ st (sc :: scs) σ _ _ hbody.left (hbase.scopesOK ctx scs) hxe hBL.left
+  · have r1 : Reach c P _ _ := hb _ _ st (sc :: scs) σ _ _ hbody.left (hbase.scopesOK ctx scs) hxv hBL.left
+    have hbr : RBlame P m.loc res := (hBL.right (evalLoc_of_ok hxv)).raised hrest
     have hj := hbody.right
     by_cases hbv : ∃ t, x = .bool t
     · obtain ⟨t, rfl⟩ := hbv
@@ -220,24 +298,25 @@ theorem sim_none {m : Meta} {a b : Node} {ca cb : List LInstr} {ci cs car c0 : N
 /-! ### `any` -/
 
 theorem sim_any {m : Meta} {a b : Node} {ca cb : List LInstr} {ci cs car c0 : Nat}
-    (ha : Sim c P ctx a ca) (hb : ∀ ctx', Sim c P ctx' b cb) (hsmall : SmallColl c a) (hK : LoopK P.consts ci cs car c0)
-    (hbl : BlameOK c P (.builtin m "any" [a, b])) :
+    (ha : Sim c P ctx a ca) (hb : ∀ ctx', Sim c P ctx' b cb) (hsmall : SmallColl c a) (hK : LoopK P.consts ci cs car c0) :
     Sim c P ctx (.builtin m "any" [a, b])
       (ca ++ [li m.loc .begin_] ++ emitLoop m.loc ci cs car c0
         (cb ++ [li m.loc .jumpIfTrue (lsize [li m.loc .pop, li m.loc .inc ci, li m.loc .jumpBackward 0, li m.loc .pop, li m.loc .false_]), li m.loc .pop])
         ++ [li m.loc .false_, li m.loc .end_]) := by
   refine sim_loop m.loc (fbQuant (specOf c) ctx b true true) (fun _ _ => pure (.bool false)) () (fun _ => [])
-    (fun _ _ _ => True) (eval_bi_any _ m a b) ha hsmall hK hbl rfl (fun _ _ _ _ _ _ _ => trivial)
+    (fun _ _ _ => True) (fun _ => postQuant true true) (fun coll i u => fbQuant_post _ b true true coll i u) (eval_bi_any _ m a b) (evalLoc_bi_any _ m a b) ha hsmall hK rfl (fun _ _ _ _ _ _ _ => trivial)
     (fun k st scs σ coll h => pro_begin k st scs σ coll h) ?_
     (fun coll N k st scs σ sc' accF r σ' h _ _ hev _ => epi_const (.inr ⟨rfl, rfl⟩) k st scs σ sc' r σ' h hev)
     (fun k st scs σ sc' v h _ => exit_end (.inr rfl) k st scs σ sc' v h)
-  intro coll N k0 st scs hle _ i acc σ res σ1 sc hiN hbase _ hfb hbr
+  intro coll N k0 st scs hle _ i acc σ res σ1 sc hiN hbase _ hfb hBL
   have hbody := loopCode_body hle
   unfold fbQuant at hfb
   unfold BodyPost
+  unfold fbLoc at hBL
   rcases SM.bind_cases hfb with ⟨e, hxe, rfl⟩ | ⟨x, σ2, hxv, hrest⟩
-  · exact hb _ _ st (sc :: scs) σ _ _ hbody.left (hbase.scopesOK ctx scs) hxe
-  · have r1 : Reach c P _ _ := hb _ _ st (sc :: scs) σ _ _ hbody.left (hbase.scopesOK ctx scs) hxv
+  · exact hb _ _ st (sc :: scs) σ _ _ hbody.left (hbase.scopesOK ctx scs) hxe hBL.left
+  · have r1 : Reach c P _ _ := hb _ _ st (sc :: scs) σ _ _ hbody.left (hbase.scopesOK ctx scs) hxv hBL.left
+    have hbr : RBlame P m.loc res := (hBL.right (evalLoc_of_ok hxv)).raised hrest
     have hj := hbody.right
     by_cases hbv : ∃ t, x = .bool t
     · obtain ⟨t, rfl⟩ := hbv
